@@ -295,21 +295,7 @@ fn fit_ops(ops: &[OpRaw], n_sheets: usize, tracked: &[(usize, Area)]) -> Vec<(us
 
 pub fn resolve(c: &Case) -> Resolved {
     let mut excluded = Vec::new();
-    let mut sheets = c.sheets.clone();
-    if c.clean {
-        for s in sheets.iter_mut() {
-            if s.contains('\'') {
-                excluded.push("ref@apos-sheet/not-shifted".to_string());
-                *s = s.replace('\'', "_");
-            }
-        }
-        // keep names unique after the replacement
-        for i in 0..sheets.len() {
-            if sheets[..i].iter().any(|o| o.to_lowercase() == sheets[i].to_lowercase()) {
-                sheets[i] = format!("{}_{}", sheets[i].chars().take(28).collect::<String>(), i);
-            }
-        }
-    }
+    let sheets = c.sheets.clone();
     let n = sheets.len();
     // formula cells: distinct (host, at)
     let mut cells: Vec<(usize, (u32, u32), Expr, Vec<u8>)> = Vec::new();
@@ -344,27 +330,27 @@ pub fn resolve(c: &Case) -> Resolved {
             // open findings: names held by another sheet than the one they refer to, second
             // addresses on another sheet, whole rows/columns
             if holder != parts[0].0 {
-                excluded.push("defined-name-foreign-holder/not-shifted".into());
+                excluded.push("defined-name-foreign-holder/not-adjusted".into());
                 holder = parts[0].0;
             }
             if punct_multi(&sheets, &parts) {
-                excluded.push("defined-name-multi-on-punct-sheet/not-shifted".into());
+                excluded.push("defined-name-multi-on-punct-sheet/not-adjusted".into());
                 parts.truncate(1);
             }
             let before = parts.len();
             let first = parts[0].0;
             parts.retain(|p| p.0 == first);
             if parts.len() != before {
-                excluded.push("defined-name-foreign-holder/not-shifted".into());
+                excluded.push("defined-name-foreign-holder/not-adjusted".into());
             }
             for p in parts.iter_mut() {
                 match p.1.clone() {
                     Area::Rows { r1, a1, r2, a2 } => {
-                        excluded.push("defined-name.rows/not-shifted".into());
+                        excluded.push("defined-name-whole-rows-cols/not-adjusted".into());
                         p.1 = Area::Range(CellRef { col: 1, row: r1, abs_col: true, abs_row: a1 }, CellRef { col: 3, row: r2, abs_col: true, abs_row: a2 });
                     }
                     Area::Cols { c1, a1, c2, a2 } => {
-                        excluded.push("defined-name.cols/not-shifted".into());
+                        excluded.push("defined-name-whole-rows-cols/not-adjusted".into());
                         p.1 = Area::Range(CellRef { col: c1, row: 1, abs_col: a1, abs_row: true }, CellRef { col: c2, row: 4, abs_col: a2, abs_row: true });
                     }
                     _ => {}
@@ -417,6 +403,16 @@ pub fn resolve(c: &Case) -> Resolved {
             }
             list.retain(|(_, parts)| !parts.is_empty());
         }
+        // open finding: Address::set_address keeps the doubled apostrophe of a quoted sheet name
+        for (_, parts) in r.series.iter_mut() {
+            let before = parts.len();
+            let sh = r.sheets.clone();
+            parts.retain(|(t, _)| !sh[*t].contains('\''));
+            for _ in parts.len()..before {
+                excluded.push("chart-series@apos-sheet/not-adjusted".to_string());
+            }
+        }
+        r.series.retain(|(_, parts)| !parts.is_empty());
         // open finding (R5, owned by C07/C10): the edit of another sheet is applied to the
         // defined names of every sheet
         for (_, parts) in r.names.iter_mut() {
@@ -660,8 +656,9 @@ pub fn parse_address_list(s: &str, split: bool) -> Result<Vec<(String, Option<Ar
     Ok(out)
 }
 
-/// Compare an observed address list with the expected one.  Returns (mode, detail) on failure.
-fn judge_addresses(r: &Resolved, parts: &[(usize, Area)], observed: &[(String, Option<Area>)], may_drop: bool) -> Option<(String, String)> {
+/// Compare an observed address list with the expected one.  On failure: (index of the failing
+/// part, symptom, detail).
+fn judge_addresses(r: &Resolved, parts: &[(usize, Area)], observed: &[(String, Option<Area>)], may_drop: bool) -> Option<(usize, String, String)> {
     let mut j = 0usize;
     for (i, (t, a)) in parts.iter().enumerate() {
         let alts = edit_area_history(a, &r.edits_on(*t));
@@ -680,73 +677,125 @@ fn judge_addresses(r: &Resolved, parts: &[(usize, Area)], observed: &[(String, O
                 if can_die && may_drop && observed.len() - j.min(observed.len()) <= parts.len() - i - 1 {
                     continue;
                 }
-                // R5: the edit of another sheet was applied to this address
-                let all: Vec<Edit> = r.edits.iter().map(|(_, e)| *e).collect();
-                let r5 = match other {
-                    Some((s, Some(oa))) if *s == r.sheets[*t] => all.len() != r.edits_on(*t).len() && edit_area_history(a, &all).contains(&Some(oa.clone())),
-                    _ => false,
-                };
-                let mode = match other {
-                    _ if r5 => "other-sheet-edit-applied",
+                let symptom = match other {
                     None => "address-lost",
                     Some((s, _)) if *s != r.sheets[*t] => "sheet-changed",
-                    Some((_, Some(oa))) if oa == a && !alive.contains(&a) => {
-                        if alive.is_empty() {
-                            "deleted-target-kept"
-                        } else {
-                            "not-shifted"
-                        }
-                    }
+                    Some((_, Some(oa))) if oa == a => "not-adjusted",
                     Some((_, Some(_))) if alive.is_empty() => "no-ref-error",
                     Some((_, Some(_))) => "wrong-shift",
                     Some((_, None)) => "spurious-ref-error",
                 };
-                let mode = if can_die && !r5 { format!("deleted-corner-{}", mode) } else { mode.to_string() };
-                return Some((mode, format!("address {} {}!{}: accepted {:?}, observed {:?}", i, r.sheets[*t], a.text(), alts.iter().map(|x| x.as_ref().map(|a| a.text()).unwrap_or("#REF!".into())).collect::<Vec<_>>(), other.map(|(s, a)| format!("{}!{}", s, a.as_ref().map(|a| a.text()).unwrap_or("#REF!".into()))))));
+                return Some((
+                    i,
+                    symptom.to_string(),
+                    format!(
+                        "address {} {}!{}: accepted {:?}, observed {:?}",
+                        i,
+                        r.sheets[*t],
+                        a.text(),
+                        alts.iter().map(|x| x.as_ref().map(|a| a.text()).unwrap_or("#REF!".into())).collect::<Vec<_>>(),
+                        other.map(|(s, a)| format!("{}!{}", s, a.as_ref().map(|a| a.text()).unwrap_or("#REF!".into())))
+                    ),
+                ));
             }
         }
     }
     if j < observed.len() {
-        return Some(("extra-address".into(), format!("observed {} addresses, expected {}", observed.len(), parts.len())));
+        return Some((parts.len() - 1, "extra-address".into(), format!("observed {} addresses, expected {}", observed.len(), parts.len())));
     }
     None
 }
 
-fn addr_class(prefix: &str, holder: usize, parts: &[(usize, Area)], i_bad: Option<usize>) -> String {
-    let p = &parts[i_bad.unwrap_or(0).min(parts.len() - 1)];
-    let _ = p;
-    let foreign = parts.iter().any(|p| p.0 != holder);
-    let kind = match p.1.kind() {
-        "rows" => ".rows",
-        "cols" => ".cols",
-        _ => "",
-    };
-    format!("{}{}{}", prefix, if foreign { "-foreign-holder" } else { "" }, kind)
-}
-
-/// multi-address names on sheets whose name contains ( ) or " are split wrongly by
-/// DefinedName::split_str and end up as an opaque string
+/// multi-address names where DefinedName::split_str does not see the separating comma (it
+/// counts parentheses and double quotes even inside a quoted sheet name): the whole text is
+/// then kept as an opaque string and never adjusted
 fn punct_multi(sheets: &[String], parts: &[(usize, Area)]) -> bool {
-    parts.len() > 1 && parts.iter().any(|(t, _)| sheets[*t].chars().any(|c| "()\"".contains(c)))
+    if parts.len() < 2 {
+        return false;
+    }
+    let texts = address_text(sheets, parts);
+    let mut depth = 0i32;
+    let mut dq = 0usize;
+    for t in &texts[..texts.len() - 1] {
+        for c in t.chars() {
+            match c {
+                '(' => depth += 1,
+                ')' => depth -= 1,
+                '"' => dq += 1,
+                _ => {}
+            }
+        }
+        if depth != 0 || dq % 2 == 1 {
+            return true;
+        }
+    }
+    false
 }
 
-fn name_prefix(r: &Resolved, parts: &[(usize, Area)]) -> String {
-    if punct_multi(&r.sheets, parts) {
-        "defined-name-multi-on-punct-sheet".into()
-    } else {
-        "defined-name".into()
+/// Root-cause class of a failing address part (None = no known structural cause: general).
+/// `holder`: Some for defined names.  Order matters: an opaque or foreign-held address is
+/// never adjusted at all, so R5 / deletion handling cannot be what went wrong for it.
+fn address_cause(r: &Resolved, kind: &str, holder: Option<usize>, parts: &[(usize, Area)], i: usize) -> Option<String> {
+    let (t, a) = &parts[i.min(parts.len() - 1)];
+    if holder.is_some() {
+        if parts.iter().any(|(_, a)| matches!(a, Area::Rows { .. } | Area::Cols { .. })) {
+            return Some(format!("{}-whole-rows-cols", kind));
+        }
+        if punct_multi(&r.sheets, parts) {
+            return Some(format!("{}-multi-on-punct-sheet", kind));
+        }
+        if Some(*t) != holder {
+            return Some(format!("{}-foreign-holder", kind));
+        }
+    } else if r.sheets[*t].contains('\'') {
+        return Some(format!("{}@apos-sheet", kind));
+    }
+    let own = edit_area_history(a, &r.edits_on(*t));
+    if holder.is_some() {
+        // R5: every sheet's defined names see every edit
+        let all: Vec<Edit> = r.edits.iter().map(|(_, e)| *e).collect();
+        if edit_area_history(a, &all) != own {
+            return Some(format!("{}:other-sheet-edit-applied", kind));
+        }
+    }
+    if own.contains(&None) {
+        return Some(format!("{}:deleted-corner", kind));
+    }
+    None
+}
+
+fn address_key(r: &Resolved, kind: &str, holder: Option<usize>, parts: &[(usize, Area)], i: usize, symptom: &str) -> String {
+    match address_cause(r, kind, holder, parts, i) {
+        // one key per structural cause (its symptoms vary with the numbers involved)
+        Some(c) if c.contains(':') => {
+            let (k, cause) = c.split_once(':').unwrap();
+            format!("{}/{}{}", k, cause, if symptom.starts_with("panic") { "-panic" } else { "" })
+        }
+        Some(c) => format!("{}/{}", c, symptom),
+        None => format!("{}/{}", kind, symptom),
     }
 }
 
-fn failing_part(detail: &str) -> Option<usize> {
-    detail.strip_prefix("address ")?.split(' ').next()?.parse().ok()
+/// the part a panic is attributed to: the first one with a structural cause that can panic
+fn panic_part(r: &Resolved, kind: &str, holder: Option<usize>, parts: &[(usize, Area)]) -> usize {
+    for i in 0..parts.len() {
+        if let Some(c) = address_cause(r, kind, holder, parts, i) {
+            if c.contains(':') {
+                return i;
+            }
+        }
+    }
+    0
 }
 
 /// a defined name alone (classifier)
 fn attempt_name(r: &Resolved, holder: usize, parts: &[(usize, Area)]) -> Option<(String, String)> {
     let single = Resolved { sheets: r.sheets.clone(), cells: vec![], names: vec![(holder, parts.to_vec())], series: vec![], edits: r.edits.clone(), excluded: vec![] };
     match run_workbook(&single, &[]) {
-        Err(p) => Some((format!("{}/panic:{}", addr_class(&name_prefix(r, parts), holder, parts, None), p.site()), p.short())),
+        Err(p) => {
+            let i = panic_part(r, "defined-name", Some(holder), parts);
+            Some((address_key(r, "defined-name", Some(holder), parts, i, &format!("panic:{}", p.site())), format!("defined name {:?}: {}", address_text(&r.sheets, parts).join(","), p.short())))
+        }
         Ok(o) => {
             let r0 = Resolved { edits: vec![], ..r.clone() };
             if judge_name(&r0, holder, parts, &o.names0[0]).is_some() {
@@ -760,19 +809,24 @@ fn attempt_name(r: &Resolved, holder: usize, parts: &[(usize, Area)]) -> Option<
 
 fn judge_name(r: &Resolved, holder: usize, parts: &[(usize, Area)], observed: &Option<String>) -> Option<(String, String)> {
     let text = observed.clone().unwrap_or_default();
+    let shown = format!("defined name {:?} -> {:?}", address_text(&r.sheets, parts).join(","), text);
     match parse_address_list(&text, true) {
-        Err(e) => Some((format!("{}/{}", addr_class(&name_prefix(r, parts), holder, parts, None), if e.starts_with("off-grid") { "off-grid-coordinate" } else { "unparsable" }), format!("{:?}: {}", text, e))),
-        Ok(list) => judge_addresses(r, parts, &list, true).map(|(mode, detail)| {
-            let cl = addr_class(&name_prefix(r, parts), holder, parts, failing_part(&detail));
-            (format!("{}/{}", cl, mode), format!("defined name {:?} -> {:?}: {}", address_text(&r.sheets, parts).join(","), text, detail))
-        }),
+        Err(e) => {
+            let symptom = if e.starts_with("off-grid") { "off-grid-coordinate" } else { "unparsable" };
+            let i = panic_part(r, "defined-name", Some(holder), parts);
+            Some((address_key(r, "defined-name", Some(holder), parts, i, symptom), format!("{}: {}", shown, e)))
+        }
+        Ok(list) => judge_addresses(r, parts, &list, true).map(|(i, symptom, detail)| (address_key(r, "defined-name", Some(holder), parts, i, &symptom), format!("{}: {}", shown, detail))),
     }
 }
 
 fn attempt_series(r: &Resolved, holder: usize, parts: &[(usize, Area)]) -> Option<(String, String)> {
     let single = Resolved { sheets: r.sheets.clone(), cells: vec![], names: vec![], series: vec![(holder, parts.to_vec())], edits: r.edits.clone(), excluded: vec![] };
     match run_workbook(&single, &[]) {
-        Err(p) => Some((format!("chart-series/panic:{}", p.site()), p.short())),
+        Err(p) => {
+            let i = panic_part(r, "chart-series", None, parts);
+            Some((address_key(r, "chart-series", None, parts, i, &format!("panic:{}", p.site())), format!("chart series {:?}: {}", address_text(&r.sheets, parts), p.short())))
+        }
         Ok(o) => {
             let r0 = Resolved { edits: vec![], ..r.clone() };
             if judge_series(&r0, parts, &o.series0[0]).is_some() {
@@ -790,11 +844,15 @@ fn judge_series(r: &Resolved, parts: &[(usize, Area)], observed: &Option<Vec<Str
         return Some(("chart-series/count".into(), format!("{} series formulas, expected {}", list.len(), parts.len())));
     }
     for (i, text) in list.iter().enumerate() {
+        let shown = format!("series {:?} -> {:?}", address_text(&r.sheets, &parts[i..i + 1])[0], text);
         match parse_address_list(text, false) {
-            Err(e) => return Some((format!("chart-series/{}", if e.starts_with("off-grid") { "off-grid-coordinate" } else { "unparsable" }), format!("{:?}: {}", text, e))),
+            Err(e) => {
+                let symptom = if e.starts_with("off-grid") { "off-grid-coordinate" } else { "unparsable" };
+                return Some((address_key(r, "chart-series", None, parts, i, symptom), format!("{}: {}", shown, e)));
+            }
             Ok(l) => {
-                if let Some((mode, detail)) = judge_addresses(r, &parts[i..i + 1], &l, false) {
-                    return Some((format!("chart-series/{}", mode), format!("series {:?} -> {:?}: {}", address_text(&r.sheets, &parts[i..i + 1])[0], text, detail)));
+                if let Some((_, symptom, detail)) = judge_addresses(r, &parts[i..i + 1], &l, false) {
+                    return Some((address_key(r, "chart-series", None, parts, i, &symptom), format!("{}: {}", shown, detail)));
                 }
             }
         }
@@ -1013,9 +1071,9 @@ fn check(c: &Case, obs: &mut Obs) -> Verdict {
 
 fn subs() -> Vec<Box<dyn DynSub>> {
     vec![
-        Box::new(Sub { name: "cells", strategy: cells_cases, cases: (500, 20_000), check, max_shrink_iters: 2500 }),
-        Box::new(Sub { name: "defined-names", strategy: names_cases, cases: (250, 8_000), check, max_shrink_iters: 2500 }),
-        Box::new(Sub { name: "chart-series", strategy: series_cases, cases: (150, 5_000), check, max_shrink_iters: 2500 }),
-        Box::new(Sub { name: "dirty", strategy: dirty_cases, cases: (150, 4_000), check, max_shrink_iters: 2500 }),
+        Box::new(Sub { name: "cells", strategy: cells_cases, cases: (1000, 30_000), check, max_shrink_iters: 2500 }),
+        Box::new(Sub { name: "defined-names", strategy: names_cases, cases: (500, 12_000), check, max_shrink_iters: 2500 }),
+        Box::new(Sub { name: "chart-series", strategy: series_cases, cases: (300, 8_000), check, max_shrink_iters: 2500 }),
+        Box::new(Sub { name: "dirty", strategy: dirty_cases, cases: (250, 5_000), check, max_shrink_iters: 2500 }),
     ]
 }
